@@ -314,8 +314,14 @@ func cmdCheck(args []string) int {
 	props := []string{*prop}
 	if *prop == "all" {
 		props = nil
-		for i := 1; i <= 20; i++ {
-			props = append(props, fmt.Sprintf("C%02d", i))
+		var man struct {
+			Checks []struct {
+				PropertyID string `json:"property_id"`
+			} `json:"checks"`
+		}
+		loadJSON(filepath.Join(*verif, "MANIFEST.json"), &man)
+		for _, c := range man.Checks {
+			props = append(props, c.PropertyID)
 		}
 	}
 	// solve the union once
@@ -506,6 +512,16 @@ func checkProperty(rc *runCtx, p, tier string, seed int, verif string, bl Baseli
 			viols = append(viols, viol{name, why, rp, false})
 		}
 	}
+	// bounded stand-ins for functions outside the subset (never counted as proved)
+	bres := runBounded(rc.w.repo, verif, p)
+	for _, br := range bres {
+		if br.Status != "bounded-pass" {
+			path := filepath.Join(verif, "replay", "bounded_"+p+"_"+br.Name+".json")
+			b, _ := json.MarshalIndent(br, "", " ")
+			os.WriteFile(path, b, 0o644)
+			viols = append(viols, viol{"bounded:" + br.Name, br.Status + ": " + strings.Join(br.Failures, " | "), path, br.Status == "bounded-fail"})
+		}
+	}
 	for _, k := range known {
 		fmt.Println(k)
 	}
@@ -563,6 +579,7 @@ func checkProperty(rc *runCtx, p, tier string, seed int, verif string, bl Baseli
 			"vacuity":              fmt.Sprintf("%d functions checked for a reachable return (cover query sat); vacuous: %d", len(fns), len(vacuous)),
 			"violations_detail":    viols2(viols),
 			"thorough_extra":       extraEvidence,
+			"bounded":              bres,
 		},
 		"assumptions": assumptions(),
 	}
